@@ -252,3 +252,6 @@ register(Unit(P, "DURABLE-DATA/DataFileWriter.open", h_writer_open, functions=[f
 register(Unit(P, "ORDER/MetadataManager.commit", cp.h_mm_commit("local"), functions=[f"{cp.MM}:MetadataManager.commit"], replay=_replay_writer))
 for _mode in ("append", "both"):
     register(Unit(P, f"ORDER/_commit_file_ops-{_mode}", cp.h_commit_file_ops(_mode), functions=[f"{cp.TX}:Transaction._commit_file_ops"], replay=_replay_writer))
+
+from contracts import helpers as _HLP  # noqa: E402
+_HLP.register_under("C16", ["HELPER/validate_data_files", "HELPER/validate_file_exists", "HELPER/metadata-file-io"])
